@@ -3750,7 +3750,11 @@ impl<'a, const HAS_CR: bool> Parser<'a, HAS_CR> {
                         None
                     };
                     // In flow context, colon must be followed by space, or flow indicator
-                    return matches!(next, Some(b' ' | b'\t' | b',' | b']' | b'}') | None);
+                    if matches!(next, Some(b' ' | b'\t' | b',' | b']' | b'}') | None) {
+                        return true;
+                    }
+                    // Any other colon is scalar content (`[h:x: 1]`): keep looking.
+                    i += 1;
                 }
                 _ => i += 1,
             }
@@ -4382,6 +4386,19 @@ impl<'a, const HAS_CR: bool> Parser<'a, HAS_CR> {
         Ok(false)
     }
 
+    /// Whether the `:` at `pos` inside a flow-context plain scalar is the
+    /// mapping value indicator rather than scalar content: YAML 1.2
+    /// `ns-plain-char(c)` keeps a `:` that is followed by an `ns-plain-safe(c)`
+    /// character, so only white space, a line break, a flow indicator or the
+    /// end of input after it make it an indicator.
+    #[inline]
+    fn flow_colon_ends_plain_scalar(&self, pos: usize) -> bool {
+        matches!(
+            self.input.get(pos + 1),
+            None | Some(b' ' | b'\t' | b'\n' | b'\r' | b',' | b'[' | b']' | b'{' | b'}')
+        )
+    }
+
     /// Parse an unquoted key in flow context.
     /// Stops at `:`, `,`, `}`, `]`, or whitespace before those.
     /// Handles multiline keys (continues across newlines with proper indentation).
@@ -4399,7 +4416,13 @@ impl<'a, const HAS_CR: bool> Parser<'a, HAS_CR> {
 
         while let Some(b) = self.peek() {
             match b {
-                b':' | b',' | b'}' | b']' => break,
+                b',' | b'}' | b']' => break,
+                // A `:` is the value indicator only before white space, a line
+                // break, a flow indicator or end of input; anywhere else it is
+                // an `ns-plain-char` like any other, so `{h:x: 1}` keys on `h:x`.
+                // (`{"a":1}`, where the value may be adjacent, needs a *quoted*
+                // key, which never reaches this scanner.)
+                b':' if self.flow_colon_ends_plain_scalar(self.pos) => break,
                 b'#' => {
                     // # starts a comment only after s-separate-in-line (space or
                     // tab), same rule as the block-key and flow-value arms
@@ -4440,32 +4463,22 @@ impl<'a, const HAS_CR: bool> Parser<'a, HAS_CR> {
                 b' ' | b'\t' => {
                     // Check if whitespace is followed by a delimiter
                     let mut lookahead = self.pos + 1;
-                    while lookahead < self.input.len() {
-                        match self.input[lookahead] {
-                            b' ' | b'\t' => lookahead += 1,
-                            b':' | b',' | b'}' | b']' => {
-                                // Whitespace before delimiter - stop here
-                                break;
-                            }
-                            b'\n' | b'\r' => {
-                                // Newline - check next line
-                                break;
-                            }
-                            _ => {
-                                // Continue with the key
-                                self.advance();
-                                break;
-                            }
-                        }
-                    }
-                    if lookahead == self.input.len()
-                        || matches!(
-                            self.input[lookahead],
-                            b':' | b',' | b'}' | b']' | b'\n' | b'\r'
-                        )
+                    while lookahead < self.input.len()
+                        && matches!(self.input[lookahead], b' ' | b'\t')
                     {
+                        lookahead += 1;
+                    }
+                    // Whitespace before a delimiter, a line break or the end of
+                    // input ends the key; before anything else it is key content.
+                    let ends_key = match self.input.get(lookahead) {
+                        None | Some(b',' | b'}' | b']' | b'\n' | b'\r') => true,
+                        Some(b':') => self.flow_colon_ends_plain_scalar(lookahead),
+                        Some(_) => false,
+                    };
+                    if ends_key {
                         break;
                     }
+                    self.advance();
                 }
                 _ => self.advance(),
             }
@@ -6521,6 +6534,34 @@ mod tests {
             result.is_ok(),
             "question mark in flow key should parse: {result:?}"
         );
+    }
+
+    /// In a flow-context plain scalar a `:` is the value indicator only before
+    /// white space, a flow indicator or the end of input (`ns-plain-char`).
+    /// The implicit-key scanner used to stop at the first `:` of any kind, so
+    /// `{h:x: 2}` keyed on `h` with the rest of the entry as its value.
+    #[test]
+    fn flow_plain_key_keeps_a_colon_that_is_not_an_indicator() {
+        for (yaml, expected) in [
+            (&b"{h:xR: 2, x: 1}"[..], "{\"h:xR\":2,\"x\":1}"),
+            (b"{h:x: [1], x: 1}", "{\"h:x\":[1],\"x\":1}"),
+            (b"{http://x: 1}", "{\"http://x\":1}"),
+            (b"{a :b: 1}", "{\"a :b\":1}"),
+            (b"[h:x: 2]", "[{\"h:x\":2}]"),
+            (b"[a:b, c]", "[\"a:b\",\"c\"]"),
+            (b"{a:, b: 1}", "{\"a\":null,\"b\":1}"),
+            (b"{a : 1, b:\n 2}", "{\"a\":1,\"b\":2}"),
+            (b"{a:1}", "{\"a:1\":null}"),
+            (b"{\"a\":1}", "{\"a\":1}"),
+        ] {
+            let index = crate::yaml::YamlIndex::build(yaml).expect("should parse");
+            assert_eq!(
+                index.root(yaml).to_json_document(),
+                expected,
+                "input: {:?}",
+                core::str::from_utf8(yaml)
+            );
+        }
     }
 
     #[test]
